@@ -968,8 +968,22 @@ def quad_case(case, stream):
             elif cl == 'pdfs':
                 xs = np.array([stream.loguniform(1e-4, 1e3) for _ in range(5)])
                 ys = np.array([stream.loguniform(1e-4, 1e3) for _ in range(4)])
-                for name, pp in (('biv_lognormal', P2 if n2 == 'biv_lognormal' else [0.3, 1.2, -0.4]),
-                                 ('biv_ind_gamma', P2 if n2 == 'biv_ind_gamma' else [0.7, 2.0, 3.0, 0.5])):
+                # besides the run's own parameters: every parameter form of both densities over the whole legal range (shapes
+                # well below 1/2 and above 1, correlations close to +-1, narrow and wide sigmas)
+                extra = []
+                for _ in range(4):
+                    sh = [stream.loguniform(0.05, 8.0), stream.loguniform(0.05, 8.0)]
+                    sc = [stream.loguniform(0.1, 50.0), stream.loguniform(0.1, 50.0)]
+                    form = stream.randrange(4)
+                    pg = [[sh[0], sc[0]], [sh[0], sc[0], 0.2], [sh[0], sh[1], sc[0], sc[1]], [sh[0], sh[1], sc[0], sc[1], 0.1]][form]
+                    extra.append(('biv_ind_gamma', pg))
+                    mu = [stream.uniform(-2.0, 5.0), stream.uniform(-2.0, 5.0)]
+                    sg = [stream.loguniform(0.1, 4.0), stream.loguniform(0.1, 4.0)]
+                    rho_ = stream.choice([-0.99, -0.5, 0.0, 0.7, 0.99]) if stream.chance(0.5) else stream.uniform(-0.99, 0.99)
+                    pl = [[mu[0], sg[0], rho_], [mu[0], mu[1], sg[0], sg[1], rho_]][form % 2]
+                    extra.append(('biv_lognormal', pl))
+                for name, pp in [('biv_lognormal', P2 if n2 == 'biv_lognormal' else [0.3, 1.2, -0.4]),
+                                 ('biv_ind_gamma', P2 if n2 == 'biv_ind_gamma' else [0.7, 2.0, 3.0, 0.5])] + extra:
                     a = call(getattr(PDFs, name), xs, ys, pp)
                     b = getattr(PDFs, name + '_py')(xs, ys, pp)
                     if isinstance(a, BaseException) or np.shape(a) != np.shape(b) or \
